@@ -36,6 +36,10 @@ CHECKS = {
          'For every explored history (all value types, direct and MULTI/EXEC, several databases) the AOF consists of complete frames after every request and replays, request by request and as a whole on a real empty server, to the live dataset (values; TTL presence); an entry whose replay is not deterministic is rejected.'),
  'C12': ('model_checking', 'TLC trace validation of scripts generated from a DSL: the spec runs the recorded program through the same Exec1 as direct commands, as one step, with the standard RESP<->Lua conversions (spec/Ferrous.tla RunProg); every generator command wrapped in redis.call/pcall, return-value shapes, error flow, EVALSHA twins, sandbox probes — each an independent segment; atomicity through the concurrent C07 workload',
          'For every explored segment the reply of the script and the dataset afterwards equal what the direct command semantics prescribe after conversion; forbidden globals and commands are unreachable; known non-standard conversions and the UTF-8 restriction are listed findings.'),
+ 'C15': ('model_checking', 'TLC model checking of spec/Streams.tla laws (MC_Data/MC_C15: XLEN, strictly increasing ids, last id monotone, XRANGE - + = all) + generated per-transition tests and seeded random histories on the real server + TLC trace validation',
+         'Every stream reply of the explored histories (XADD auto/explicit ids incl. colliding and maximal ids, XDEL, XTRIM, range reads with all bound positions and COUNT) and the dataset afterwards are those of the ordered-log model; listed deviations are open findings.'),
+ 'C16': ('model_checking', 'TLC model checking of consumer-group laws (MC_Data/MC_C16: XPENDING summary = PEL, per-consumer counts) + generated tests and seeded random multi-group histories + TLC trace validation',
+         'Every XREADGROUP/XACK/XCLAIM/XPENDING/XGROUP reply of the explored histories matches a model of group cursor + pending map; listed deviations are open findings.'),
 }
 NOT_YET = {}
 
